@@ -43,7 +43,10 @@ def runRW (r : Report) (s : Section) : Report := Id.run do
     r := r.addCover "rw-new-panics"
     for l in s.lines do
       r := { r with ops := r.ops + 1 }
-      if joinSp l.obs ≠ "PANIC-new" then r := r.mismatch s.idx l.idx "PANIC-new" (joinSp l.obs)
+      if joinSp l.obs ≠ "PANIC-new" then
+        r := r.mismatch s.idx l.idx "PANIC-new" (joinSp l.obs)
+        -- a window of size < 1 has no "last size intervals": the only conforming behaviour is to refuse
+        r := r.violation s.idx l.idx s!"struct=rw NewRollingWindow(size={sizeI}) returned a window (size < 1 must panic) op=[{joinSp l.op}] impl=[{joinSp l.obs}]"
     return r
   let mut rw := made.getD (RW.new size iv false t0)
   let ign := rw.ignoreCurrent
